@@ -1,6 +1,6 @@
 (* C19 — property theorems only.  Each is closed by [exact <lemma>] and followed by
    Print Assumptions; the statements are pinned here so they cannot be quietly weakened. *)
-From FB Require Import C19.Model C19.CoordFmtGen C19.Acyclic C19.Theory C19.TheoryTypes C19.TheorySource C19.TheoryCoord C19.TheoryCoordForms C19.TheoryPom C19.TheoryFields C19.TheoryCut C19.TheoryFuel C19.TheoryEffective C19.TheoryPipeline C19.TheoryTreeShow C19.TheoryCycles C19.TheoryRoundtrip C19.TheoryRelational C19.TreeBasics C19.TreeBfs C19.TreeMediation C19.TreeOrder C19.TreeTheorems.
+From FB Require Import C19.Model C19.CoordFmtGen C19.Acyclic C19.Theory C19.TheoryTypes C19.TheorySource C19.TheoryCoord C19.TheoryCoordForms C19.TheoryPom C19.TheoryFields C19.TheoryCut C19.TheoryFuel C19.TheoryEffective C19.TheoryPipeline C19.TheoryTreeShow C19.TheoryCycles C19.TheoryRoundtrip C19.TheoryRelational C19.TheorySnapshot C19.TheoryExact C19.TreeBasics C19.TreeBfs C19.TreeMediation C19.TreeOrder C19.TreeTheorems.
 From Coq Require Import Sorting.Sorted.
 
 (* the scope table in the source (regenerated into ScopeGen.v on every run) is Maven's documented table *)
@@ -533,3 +533,56 @@ Theorem C19_effective_pom_example :
   exists r m, eff_pom ex_files [mkResolver [114%N] [114%N]] (mkCoord [103%N] (ex_s 99) [49%N] None s_jar) r m /\ pd_deps m <> [].
 Proof. exact eff_pom_example. Qed.
 Print Assumptions C19_effective_pom_example.
+
+(* ==== round 7 ==== *)
+
+(* ---- coord.rs to_snapshot_version (MavenCoord::base_version), the version directory of every URL asked of a repository:
+   snapshot_form v b :=  v = b-d.t-n  with d of 8 ASCII digits, t of 6, n of one or more (C19/TheorySnapshot.v).
+   For ALL strings: a version of that form lives in the directory b-SNAPSHOT, any other version in its own directory,
+   a version is left alone only if it has not the form, and the prefix b is unique ---- *)
+Theorem C19_snapshot_version_spec : forall v,
+  (forall b, snapshot_form v b -> to_snapshot_version v = b ++ s_snapshot)
+  /\ ((forall b, ~ snapshot_form v b) -> to_snapshot_version v = v)
+  /\ (to_snapshot_version v = v -> forall b, ~ snapshot_form v b)
+  /\ (forall b1 b2, snapshot_form v b1 -> snapshot_form v b2 -> b1 = b2).
+Proof. exact snapshot_version_spec. Qed.
+Print Assumptions C19_snapshot_version_spec.
+
+Theorem C19_snapshot_version_idempotent : forall v, to_snapshot_version (to_snapshot_version v) = to_snapshot_version v.
+Proof. exact snapshot_version_idempotent. Qed.
+Print Assumptions C19_snapshot_version_idempotent.
+
+(* the URL of the POM asked of a repository: repository (one slash), group as a path, artifact, the version's directory
+   as characterised above, <artifact>-<version>.pom; classifier and type play no part *)
+Theorem C19_pom_url_layout : forall r g a v k t,
+  let dir := r_maven r ++ (if ends_with_char cSLASH (r_maven r) then [] else [cSLASH])
+             ++ replace_char cDOT cSLASH g ++ [cSLASH] ++ a ++ [cSLASH] in
+  let file := [cSLASH] ++ a ++ [cMINUS] ++ v ++ s_dot_pom in
+  (forall b, snapshot_form v b -> make_pom_url r (mkCoord g a v k t) = dir ++ (b ++ s_snapshot) ++ file)
+  /\ ((forall b, ~ snapshot_form v b) -> make_pom_url r (mkCoord g a v k t) = dir ++ v ++ file)
+  /\ make_pom_url r (mkCoord g a v k t) = make_pom_url r (mkCoord g a v None s_pom).
+Proof. exact pom_url_layout. Qed.
+Print Assumptions C19_pom_url_layout.
+
+Theorem C19_snapshot_examples :
+  snapshot_form ex_ts_version [49;46;53]%N
+  /\ to_snapshot_version ex_ts_version = [49;46;53]%N ++ s_snapshot
+  /\ to_snapshot_version [49;46;48;45;50;48;50;51;48;55;49;51;46;48;50;53;54;49;45;51]%N
+     = [49;46;48;45;50;48;50;51;48;55;49;51;46;48;50;53;54;49;45;51]%N
+  /\ (forall b, ~ snapshot_form [49;46;48;45;50;48;50;51;48;55;49;51;46;48;50;53;54;49;57;45]%N b)
+  /\ to_snapshot_version [45;50;48;50;51;48;55;49;51;46;48;50;53;54;49;57;45;49]%N = s_snapshot.
+Proof. exact snapshot_examples. Qed.
+Print Assumptions C19_snapshot_examples.
+
+(* ---- the round-trip hypotheses are exact (converses of C19_coord_roundtrip / C19_found_dep_roundtrip): a coordinate survives
+   Display + from_str iff no field contains ':'; a resolved dependency survives Display + try_from (up to the repository's name)
+   iff no coordinate field contains ':' or " @ " ---- *)
+Theorem C19_coord_roundtrip_iff : forall c, parse_coord (print_coord c) = Ok c <-> coord_colon_free c = true.
+Proof. exact coord_roundtrip_iff. Qed.
+Print Assumptions C19_coord_roundtrip_iff.
+
+Theorem C19_found_dep_roundtrip_iff : forall d,
+  parse_found (print_found d) = Ok (mkFound (mkResolver (r_maven (f_resolver d)) (r_maven (f_resolver d))) (f_coord d) (f_scope d))
+  <-> coord_separator_free (f_coord d) = true.
+Proof. exact found_roundtrip_iff. Qed.
+Print Assumptions C19_found_dep_roundtrip_iff.
